@@ -162,31 +162,40 @@ structure StrScan where
   terminated : Bool
   panicked : Bool
 
+/-- `cur_expr` after the current character was (or was not) recorded -/
+def curExprOf (c : Char) (s : StrScan) : List Char := if s.build > 0 then c :: s.curExpr else s.curExpr
+/-- the literal's text before an expression that opens at this character -/
+def curPrefixOf (c : Char) (s : StrScan) : List Char :=
+  if c = '{' && s.build == 0 then c :: s.string else s.curPrefix
+/-- `build_cur_expr` after the current character -/
+def buildOf (c : Char) (s : StrScan) : Int :=
+  if c = '{' then s.build + 1 else if c = '}' then s.build - 1 else s.build
+/-- an interpolated expression is complete after this character -/
+def exprDone (c : Char) (s : StrScan) : Bool := buildOf c s == 0 && !(curExprOf c s).isEmpty
+
+/-- body of the `for c in it` loop of the `'"'` arm for a character that does not end the literal -/
+def scanStep (c : Char) (s : StrScan) : StrScan :=
+  if s.backSlash then
+    { s with string := c :: s.string, consumed := s.consumed + 1, backSlash := c = '\\' }
+  else if exprDone c s then
+    -- `cur_expr[0..cur_expr.len() - 1]`: byte slicing, panics unless the last char is 1 byte
+    { s with string := c :: s.string, consumed := s.consumed + 1, backSlash := c = '\\',
+             curExpr := [], curPrefix := curPrefixOf c s, build := buildOf c s,
+             exprs := if (curExprOf c s).tail.isEmpty then s.exprs
+                      else (curPrefixOf c s, (curExprOf c s).tail.reverse) :: s.exprs,
+             panicked := s.panicked ||
+               (match (curExprOf c s).head? with | some l => l.utf8Size != 1 | none => false) }
+  else
+    { s with string := c :: s.string, consumed := s.consumed + 1, backSlash := c = '\\',
+             curExpr := curExprOf c s, curPrefix := curPrefixOf c s, build := buildOf c s }
+
 /-- the `for c in it` loop of the `'"'` arm -/
 def scanStr : List Char → StrScan → StrScan
   | [], s => s
   | c :: cs, s =>
     if !s.backSlash && s.build == 0 && c = '"' then
       { s with consumed := s.consumed + 1, terminated := true }
-    else
-      let string := c :: s.string
-      let s1 : StrScan := { s with string := string, consumed := s.consumed + 1 }
-      let s2 : StrScan :=
-        if s.backSlash then s1
-        else
-          let curExpr := if s.build > 0 then c :: s.curExpr else s.curExpr
-          let curPrefix := if c = '{' && s.build == 0 then string else s.curPrefix
-          let build := if c = '{' then s.build + 1 else if c = '}' then s.build - 1 else s.build
-          if build == 0 && !curExpr.isEmpty then
-            -- `cur_expr[0..cur_expr.len() - 1]`: byte slicing, panics unless the last char is 1 byte
-            match curExpr with
-            | last :: initRev =>
-              let exprs := if initRev.isEmpty then s.exprs else (curPrefix, initRev.reverse) :: s.exprs
-              { s1 with curExpr := [], curPrefix := curPrefix, build := build, exprs := exprs,
-                        panicked := s.panicked || last.utf8Size != 1 }
-            | [] => s1
-          else { s1 with curExpr := curExpr, curPrefix := curPrefix, build := build }
-      scanStr cs { s2 with backSlash := c = '\\' }
+    else scanStr cs (scanStep c s)
 
 def StrScan.init : StrScan := ⟨[], false, 0, [], [], [], 0, false, false⟩
 
